@@ -230,14 +230,16 @@ type scriptedValidator struct {
 	mu    sync.Mutex
 	fail  bool
 	calls int
+	refs  []string // the image references whose signatures were asked to be verified
 }
 
 var _ signature.Validator = &scriptedValidator{}
 
-func (s *scriptedValidator) Validate(context.Context, name.Reference, *v1beta1.ImageVerification, ...string) error {
+func (s *scriptedValidator) Validate(_ context.Context, ref name.Reference, _ *v1beta1.ImageVerification, _ ...string) error {
 	s.mu.Lock()
 	defer s.mu.Unlock()
 	s.calls++
+	s.refs = append(s.refs, ref.Name()) // fully qualified (String() keeps a digest reference as written)
 	if s.fail {
 		return errors.New("no matching signatures (scripted)")
 	}
@@ -554,6 +556,15 @@ func refString(image string) string {
 		return image
 	}
 	return ref.String()
+}
+
+// refName is the fully qualified reference the image backend pulls for a source.
+func refName(image string) string {
+	ref, err := name.ParseReference(image, name.WithDefaultRegistry("xpkg.crossplane.io"))
+	if err != nil {
+		return image
+	}
+	return ref.Name()
 }
 
 func cachePath(rev string) string { return cacheDir + "/" + rev + ".gz" }
